@@ -29,7 +29,9 @@ def yval(v):
     if isinstance(v, list):
         return f"(YList {clist(v, yval)})"
     if isinstance(v, dict):
-        return "YMap"
+        if not all(isinstance(k, str) for k in v):
+            raise Unsupported(f"mapping with non-string keys {v!r}")
+        return f"(YMap {clist(list(v), cstr)})"
     raise Unsupported(f"yaml value {v!r}")
 
 
